@@ -6,6 +6,8 @@ import (
 	"fmt"
 	"os"
 	"runtime"
+	"runtime/debug"
+	"runtime/pprof"
 	"strconv"
 	"time"
 )
@@ -34,11 +36,17 @@ func main() {
 		fmt.Println("usage: gosx run <Harness> | check <ID> [--tier quick|thorough] | replay <path> | selftest")
 		os.Exit(2)
 	}
+	debug.SetGCPercent(600) // the SSA program is a large, static heap: collect less often
 	if d := os.Getenv("VERIF_DIR"); d != "" {
 		verifDir = d
 	}
 	switch os.Args[1] {
 	case "run":
+		if pf := os.Getenv("GOSX_PROF"); pf != "" {
+			f, _ := os.Create(pf)
+			pprof.StartCPUProfile(f)
+			defer pprof.StopCPUProfile()
+		}
 		fs := flag.NewFlagSet("run", flag.ExitOnError)
 		tier := fs.String("tier", "quick", "")
 		workers := fs.Int("workers", runtime.NumCPU(), "")
